@@ -224,9 +224,9 @@ func txHashes(b *types.Block) string {
 func RunInvalid(dir string, t *Tree, cs InvCase) InvRes {
 	res := InvRes{Case: cs}
 	os.RemoveAll(dir)
-	// every second case runs with a recent-block cache of 2 entries, so that blocks leave it within the case
+	// every second case, and every download-path case, runs with a recent-block cache of 2 entries, so that blocks leave it within the case
 	n := node.New(node.Options{DataDir: dir, Cfg: func(c *types.Config) {
-		if cs.Index%2 == 1 {
+		if cs.Index%2 == 1 || cs.Download {
 			c.BlockChain.DefCacheSize = 2
 		}
 	}})
@@ -239,6 +239,9 @@ func RunInvalid(dir string, t *Tree, cs InvCase) InvRes {
 	var target, child int
 	if cs.Pos == "tip" {
 		k := 8 + r.Intn(5) // target trunk index 8..12 (height 9..13)
+		if cs.Download && k > 10 {
+			k -= 3 // leave room for the chain to grow past the recent-block cache after the genuine block
+		}
 		for i := 0; i < k; i++ {
 			pre = append(pre, i)
 		}
